@@ -24,6 +24,7 @@ import (
 //     panic fence;
 //   - schedule cases (C07: corpus program + threads + schedule): re-run that
 //     one interleaving.
+//
 // It returns an error (=> VIOLATION line, exit 1) when the replayed case still
 // shows the recorded discrepancy.
 func GenericReplay(kind string, c map[string]interface{}) error {
